@@ -7,6 +7,8 @@
     program vs the code file of its hand expansion (Lean SPEC `MacroSpec.expand`, independent of asl), both assembled
     by the real asl and compared record by record; additionally the real -P output vs the expansion text.
     INCLUDE/BINCLUDE/WHILE: hand expansion done by the harness itself (outside the Lean spec).
+Processor layer (tag machine of as.c, Model/Tags.lean, Props/C11_Tags.lean): see c11_tags.py - the construct stream's
+programs also go through the model (driver `c11tag`) and are compared with the real -P output and the SPEC's expansion.
 """
 import json
 import os
@@ -14,6 +16,7 @@ import re
 
 from .. import common
 from ..common import log
+from . import c11_tags
 
 INC = os.path.join(common.REPO, "include")
 
@@ -163,8 +166,8 @@ def parse_i(data):
     return out
 
 
-def tok_requests(c, cs):
-    """driver requests for the body lines of one case"""
+def tok_requests(c, cs, argc_written=True):
+    """driver requests for the body lines of one case (argc_written: the probed behaviour of ARGCOUNT, see c11_tags.probe_quirks)"""
     names = c["names"]
     args = c["args"]
     np_ = len(names)
@@ -182,7 +185,7 @@ def tok_requests(c, cs):
     nm = [n if cs else n.upper() for n in names]
     for raw in c["body"]:
         reqs.append(" ".join([("1" if cs else "0"), str(np_), str(len(bound))] + [hx(n) for n in nm] + [hx(a) for a in bound] +
-                             [hx(str(nargs)), hx(allargs), hx(str(spec_cnt)), hx(raw)]))
+                             [hx(str(nargs if argc_written else spec_cnt)), hx(allargs), hx(str(spec_cnt)), hx(raw)]))
     return reqs, nargs < np_
 
 
@@ -629,6 +632,8 @@ def run(args):
             rc, msg, p, i = asl(bdir, wd, "edge", " cpu z80\n org 0\n" + body, want_i=True)
             edge[tag] = "rejected (rc=%s)" % rc if rc != 0 else "accepted"
         res.notes.append("parameter-name shapes excluded by C11_tokens (NameOK), probed on the real assembler: %s" % edge)
+        qflags, qdict = c11_tags.probe_quirks(asl, bdir, wd)
+        res.notes.append("quirk flags of the tag machine model, calibrated on the real assembler: %s" % qdict)
 
         # ---------------- token stream
         for cs in (False, True):
@@ -644,7 +649,7 @@ def run(args):
             real = parse_i(i)
             reqs, metas = [], []
             for ci, c in enumerate(cases):
-                rq, fewer = tok_requests(c, cs)
+                rq, fewer = tok_requests(c, cs, qdict["argCountWritten"])
                 for li, r in enumerate(rq):
                     reqs.append(r)
                     metas.append((ci, li, fewer))
@@ -693,6 +698,9 @@ def run(args):
             src, enc, hdr, st = gen_program(rng, cs)
             progs.append((src, enc, hdr, st, cs))
         answers = common.driver("c11exp", [p[1] for p in progs], timeout=1800) if drv_ok else []
+        tag_answers = common.driver("c11tag", [c11_tags.tree_request(p[1], qflags) for p in progs], timeout=1800) if drv_ok else []
+        dist["tag_tree_programs"] = 0
+        dist["tag_tree_model_eq_spec"] = 0
         agg = {}
         for k, ((src, enc, hdr, st, cs), ans) in enumerate(zip(progs, answers)):
             if not ans.startswith("ok"):
@@ -737,6 +745,21 @@ def run(args):
                     info["first_diff"] = repr((a[d[0]], b[d[0]])) if d else "lengths %d/%d" % (len(a), len(b))
                     corr_fail.append(info)
                     continue
+                # processor layer: the tag machine model on the same program
+                ta = c11_tags.parse_answer(tag_answers[k]) if k < len(tag_answers) else None
+                if ta is None:
+                    proof_problems.append("driver c11tag: %s on program %d" % ((tag_answers[k] if k < len(tag_answers) else "no answer")[:60], k))
+                    continue
+                m = norm_i(ta["lines"])
+                dist["tag_tree_programs"] += 1
+                dist["tag_tree_model_eq_spec"] += int(m == b)
+                if ta["crashed"] or ta["stack"] != 0 or ta["coll"] or m != a:
+                    info["why"] = "tag machine model (Model/Tags.lean) and asl -P output differ (crashed=%s stack=%s coll=%s)" % (
+                        ta["crashed"], ta["stack"], ta["coll"])
+                    d = [j for j in range(min(len(a), len(m))) if a[j] != m[j]][:1]
+                    info["first_diff"] = repr((a[d[0]], m[d[0]])) if d else "lengths %d/%d" % (len(a), len(m))
+                    corr_fail.append(info)
+                    continue
             if len(samples) < 6 and st["maxdepth"] >= 2 and len(exp_lines) > 6:
                 samples.append(dict(kind="program", source=src[:900], expansion_lines=len(exp_lines), code_bytes=sum(len(x[4]) for x in c1)))
         dist["constructs"] = agg
@@ -755,20 +778,32 @@ def run(args):
                     spec_fail.append(dict(tag="misc:" + kind, source=a, hand_expansion=b,
                                           why="%s: code files differ or rejected: rc=%s/%s %s %s" % (kind, rc1, rc2, m1[-200:], m2[-200:])))
 
+        # ---------------- processor layer: flat stream (SHIFT, EXITM, parameters in headers), SHIFT vs the manual, quirk programs
+        ev2, distinct2 = c11_tags.run_streams(args, asl, bdir, wd, drv_ok, qflags, dist, spec_fail, corr_fail, proof_problems, samples)
+        evaluations += ev2
+        distinct |= distinct2
+
     res.coverage = common.proof_coverage(audit, "C11", [
         "translate/tables.py MacroConsts (ArgCntMax, implicit parameter names via compiled dumper over asmdef.h)",
         "correspondence: real asl -P output vs Model/MacroCall.lean on generated macro bodies (differential test)",
-        "construct layer: SPEC expand is executable and run against the real asl; the tag-stack machine is NOT modelled"])
+        "construct layer: SPEC expand is executable and run against the real asl; the tag machine (Model/Tags.lean) is proved to refine it "
+        "(Props/C11_Tags.lean: C11_tags_refine, hypotheses WFB) and is run against the real asl -P output (driver c11tag)",
+        "quirk flags of the tag machine model (IRPC \"\" once, EXITM-in-IRP crash, ARGCOUNT = written arguments, SHIFT leaves the last token, ALLARGS after SHIFT skips empty arguments) are probed on the real binary each run"])
     res.coverage.update(
         evaluations=evaluations, distinct_nontrivial=len(distinct),
         rule="token stream: one delivered body line per evaluation (0..40 parameters, names that are substrings of identifiers, \\name\\ forms, arguments that are "
              "other parameters' names, empty/excess/missing arguments, ALLARGS/ARGCOUNT, both case modes), distinct by (parameter count, body line, arguments); "
              "construct stream: one program per evaluation (MACRO positional/keyword/default/excess, REPT 0..40, IRP, IRPN 1..4 ragged, IRPC, EXITM, nesting <= 3, "
-             "private labels vs GLOBALSYMBOLS), distinct by construct tree; misc: INCLUDE/BINCLUDE/WHILE programs",
+             "private labels vs GLOBALSYMBOLS), distinct by construct tree - every such program also through the tag machine model; "
+             "tags flat stream: one generated source per evaluation (SHIFT, EXITM, parameters in nested headers, macro calls in bodies, "
+             "macros defined in a repetition), distinct by source; SHIFT cases vs the manual's rule; misc: INCLUDE/BINCLUDE/WHILE programs",
         samples=samples, distribution=dist)
     res.assumptions = ["the hand expansion of private labels renames them with a suffix per expansion instance (construct id, iteration)",
                        "in case-insensitive mode the harness upper-cases arguments outside quotes before handing them to the model (UpString is not modelled)",
-                       "INCLUDE/BINCLUDE/WHILE hand expansions are produced by the harness, not by the Lean spec"]
+                       "INCLUDE/BINCLUDE/WHILE hand expansions are produced by the harness, not by the Lean spec",
+                       "tag machine model: a source line is already split into statement kind and text fields; the token layer is applied per field "
+                       "(a substitution that changes the statement kind or the argument count of a line is outside the model); conditional assembly, "
+                       "local-symbol handles, WHILE and INCLUDE nesting are outside the model"]
     return common.conclude(res, proof_problems, spec_fail, corr_fail, evaluations)
 
 
